@@ -518,6 +518,18 @@ func genC05(r *Rand, tier string) []Case {
 
 // ---------- C06: DISTINCT and UNION ----------
 
+func deepValue(depth int, leaf any) any {
+	v := leaf
+	for i := 0; i < depth; i++ {
+		if i%2 == 0 {
+			v = []any{v}
+		} else {
+			v = map[string]any{"d": v}
+		}
+	}
+	return v
+}
+
 func genDupTable(r *Rand, maxRows int) []any {
 	protos := []map[string]any{
 		{"a": float64(1), "b": "x"}, {"a": "1", "b": "x"}, {"a": "1 b:x"}, {"a": float64(1)}, {"a": float64(2), "b": "y"},
@@ -528,6 +540,8 @@ func genDupTable(r *Rand, maxRows int) []any {
 		{"a": map[string]any{"k": nil}}, {"a": map[string]any{"k": "<nil>"}},
 		{"a": map[string]any{"k": "v w:z"}}, {"a": map[string]any{"k": "v", "w": "z"}},
 		{"a": []any{[]any{float64(1), float64(2)}}}, {"a": []any{"[1 2]"}},
+		// values nested deeper than 32 levels that differ only at the bottom
+		{"a": deepValue(34, float64(1))}, {"a": deepValue(34, float64(2))}, {"a": deepValue(34, float64(1))}, {"a": deepValue(33, float64(1))},
 		// column NAMES with punctuation that a name:value, rendering would confuse with another row's columns
 		{"a": float64(1), "b": float64(2)}, {"a:1,b": float64(2)}, {"a": float64(1), "b:2,c": float64(3)}, {"a:1": float64(1)}, {"a": "1,b:2"},
 		{"a\":1,\"b": float64(2)}, {"a": float64(1), "b": "x", "": "x"}, {"a b": "x"},
@@ -539,6 +553,8 @@ func genDupTable(r *Rand, maxRows int) []any {
 	}
 	if r.Chance(10) {
 		pool = protos[len(protos)-8:] // the column-name family together
+	} else if r.Chance(8) {
+		pool = protos[len(protos)-12 : len(protos)-8] // the deep-value family together
 	}
 	n := r.Intn(maxRows + 1)
 	rows := make([]any, n)
@@ -588,6 +604,14 @@ func genC06(r *Rand, tier string) []Case {
 			for j := 1; j < k; j++ {
 				all := r.Bool()
 				tags = append(tags, map[bool]string{true: "union-all", false: "union"}[all])
+				if q.Union && r.Chance(25) {
+					// the union built so far becomes a parenthesised LEFT operand with its own window
+					q.Limit = intp(1 + r.Intn(3))
+					if r.Bool() {
+						q.Offset = intp(r.Intn(2))
+					}
+					tags = append(tags, "union-left-operand-with-limit")
+				}
 				q = &Stmt{Union: true, All: all, L: q, R: branch(tabs[j])}
 			}
 			tags = append(tags, fmt.Sprintf("branches:%d", k))
